@@ -43,6 +43,9 @@ type lease struct {
 	// leaseTimeout and expireTime are used to control the lease's lifetime
 	leaseTimeout time.Duration
 	expireTime   atomic.Value
+	// closed is set once by Close and never cleared: a keep-alive answer that arrives
+	// after the lease has been given up must not make it valid again.
+	closed int32
 }
 
 // Grant uses `lease.Grant` to initialize the lease and expireTime.
@@ -66,6 +69,7 @@ func (l *lease) Grant(leaseTimeout int64) error {
 
 // Close releases the lease.
 func (l *lease) Close() error {
+	atomic.StoreInt32(&l.closed, 1)
 	// Reset expire time.
 	l.expireTime.Store(time.Time{})
 	// Try to revoke lease to make subsequent elections faster.
@@ -78,6 +82,9 @@ func (l *lease) Close() error {
 // IsExpired checks if the lease is expired. If it returns true,
 // current leader should step down and try to re-elect again.
 func (l *lease) IsExpired() bool {
+	if atomic.LoadInt32(&l.closed) == 1 {
+		return true
+	}
 	if l.expireTime.Load() == nil {
 		return false
 	}
